@@ -97,6 +97,11 @@ func CalculateSaleReturn(supply *big.Int, reserve *big.Int, crr uint32, sellAmou
 
 	result, _ := res.Int(nil)
 
+	// a reserve that does not fit the float precision may have been rounded up
+	if result.Cmp(reserve) == 1 {
+		return big.NewInt(0).Set(reserve)
+	}
+
 	return result
 }
 
